@@ -1,0 +1,23 @@
+//go:build verif
+// +build verif
+
+package seccomp
+
+import (
+	"encoding/binary"
+
+	"github.com/elastic/go-seccomp-bpf/arch"
+)
+
+// SetArchVerif sets the architecture a policy is assembled for (verification builds only).
+func SetArchVerif(p *Policy, a *arch.Info) {
+	p.arch = a
+}
+
+// SetNativeEndianVerif overrides the byte order used to address the halves of
+// the syscall arguments and returns the previous one (verification builds only).
+func SetNativeEndianVerif(order binary.ByteOrder) binary.ByteOrder {
+	old := nativeEndian
+	nativeEndian = order
+	return old
+}
